@@ -6,6 +6,8 @@ Line-protocol driver for C20. One server configuration per case, then requests.
       ext=0|nil|nostorage|nostoragethr|1|1thr upload=0|cleared|1 proofreq=0|off|1 introspect=0|1
       proxyhdrs=<a,b|-|empty> sticky=<-|Z+Z+…> echo=<a,b|-|empty|nil|cleared>
       comp=0|neg|1|default|lvl3|lvl4|back|badlvl hookfail=0|nilhook|1 pkce=0|1 pfx=</p|-|empty> …   -> ok
+  recfg <any subset of those keys>   (setter calls on the live server; later responses are judged
+      against the configuration then in force)                                               -> ok
   req <VERB> <path> rid=<x<hex>|absent> kind=<exit-path steering, harness only> … mint=<x<hex>>
       -> rid=<x<hex>|bad-mint> enc=<v|absent> ext=<v|absent> caps=<n=v;…|-> expose=<a,b,…|none>
 
@@ -32,6 +34,7 @@ def list? (s : String) : List String := if s = "-" then [] else s.splitOn ","
 structure St where
   cfg : Cfg
   pfx : String
+  stickyCalls : List Int     -- TTLs of the EnableSticky calls made so far
 
 /-- Every setter can be called in several ways; the script names the way, the model only sees what
 the server's state then is. -/
@@ -42,34 +45,73 @@ def nat? (s : String) : Option Nat := s.toInt?.map Int.toNat   -- negative caps 
 
 def emptyish (s : String) : Bool := s = "-" || s = "empty" || s = "nil" || s = "cleared"
 
-def parseCfg (ws : List String) : Option St := do
+def corsWays : List (String × Bool) := [("0", false), ("empty", false), ("cleared", false), ("1", true), ("star", true)]
+def extWays : List (String × Bool) :=
+  [("0", false), ("nil", false), ("nostorage", false), ("nostoragethr", false), ("1", true), ("1thr", true)]
+def uploadWays : List (String × Bool) := [("0", false), ("cleared", false), ("1", true)]
+def proofWays : List (String × Bool) := [("0", false), ("off", false), ("1", true)]
+def compWays : List (String × Bool) :=
+  [("0", false), ("neg", false), ("1", true), ("default", true), ("lvl3", true), ("lvl4", true), ("back", true)]
+def hookWays : List (String × Bool) := [("0", false), ("nilhook", false), ("1", true)]
+
+/-- the ways that mean "this setter is not called" -/
+def noCall (k v : String) : Bool :=
+  (v = "0" && (k = "ext" || k = "cors" || k = "upload" || k = "proofreq" || k = "hookfail" || k = "introspect" || k = "pkce")) ||
+  (v = "default" && k = "comp") || (v = "-" && (k = "proxyhdrs" || k = "echo" || k = "sticky" || k = "pfx"))
+
+def updKey {α : Type} (kvs : List (String × String)) (k : String) (f : String → Option α) (cur : α) : Option α :=
+  match lookup kvs k with
+  | none => some cur
+  | some v => if noCall k v then some cur else f v
+
+/-- Apply the setter calls a `cfg` / `recfg` line lists to the current state. Keys that are absent
+leave the state alone (`cfg` starts from a freshly constructed server). -/
+def applyCalls (st : St) (ws : List String) : Option St := do
   let kvs := ws.filterMap kv
-  let g := fun k => lookup kvs k
-  let n := fun k => (g k).bind nat?
-  let stickyArg ← g "sticky"
-  let sticky ← if stickyArg = "-" then some none
-    else ((stickyArg.splitOn "+").mapM String.toInt?).map stickyTTL
-  let pfx ← (g "pfx").map fun s => if s = "-" || s = "empty" then "" else s
+  let upd := fun {α : Type} (k : String) (f : String → Option α) (cur : α) => updKey kvs k f cur
+  let c := st.cfg
+  let calls ← updKey kvs "sticky" (fun v => if v = "-" then some st.stickyCalls
+      else ((v.splitOn "+").mapM String.toInt?).map (st.stickyCalls ++ ·)) st.stickyCalls
+  let pfx ← upd "pfx" (fun s => some (if s = "-" || s = "empty" then "" else s)) st.pfx
+  -- a level the setter rejects (`badlvl`) leaves the previous setting in place
+  let comp ← upd "comp" (fun s => if s = "badlvl" then some c.compression else way compWays s) c.compression
+  -- introspection can only be switched on
+  let intro ← upd "introspect" (fun s => (bool? s).map (· || c.introspect)) c.introspect
   some {
     pfx := pfx
+    stickyCalls := calls
     cfg := {
-      cors := ← (g "cors").bind (way [("0", false), ("empty", false), ("cleared", false), ("1", true), ("star", true)])
-      maxRequestBytes := ← n "maxreq"
-      maxResponseBytes := ← n "maxresp"
-      maxExternalizedResponseBytes := ← n "maxext"
-      maxUploadBytes := ← n "maxup"
-      externalStorage := ← (g "ext").bind (way [("0", false), ("nil", false), ("nostorage", false),
-        ("nostoragethr", false), ("1", true), ("1thr", true)])
-      upload := ← (g "upload").bind (way [("0", false), ("cleared", false), ("1", true)])
-      proofRequired := ← (g "proofreq").bind (way [("0", false), ("off", false), ("1", true)])
-      introspect := ← (g "introspect").bind bool?
-      extraProxyHeaders := ← (g "proxyhdrs").map fun s => if emptyish s then [] else s.splitOn ","
-      sticky := sticky
-      echoNames := ← (g "echo").map fun s => if emptyish s then [] else s.splitOn ","
-      compression := ← (g "comp").bind (way [("0", false), ("neg", false), ("1", true), ("default", true),
-        ("lvl3", true), ("lvl4", true), ("back", true), ("badlvl", true)])
-      hookFails := ← (g "hookfail").bind (way [("0", false), ("nilhook", false), ("1", true)])
-      pkce := ← (g "pkce").bind bool? } }
+      cors := ← upd "cors" (way corsWays) c.cors
+      maxRequestBytes := ← upd "maxreq" nat? c.maxRequestBytes
+      maxResponseBytes := ← upd "maxresp" nat? c.maxResponseBytes
+      maxExternalizedResponseBytes := ← upd "maxext" nat? c.maxExternalizedResponseBytes
+      maxUploadBytes := ← upd "maxup" nat? c.maxUploadBytes
+      externalStorage := ← upd "ext" (way extWays) c.externalStorage
+      upload := ← upd "upload" (way uploadWays) c.upload
+      proofRequired := ← upd "proofreq" (way proofWays) c.proofRequired
+      introspect := intro
+      extraProxyHeaders := ← upd "proxyhdrs" (fun s => some (if emptyish s then [] else s.splitOn ",")) c.extraProxyHeaders
+      sticky := stickyTTL calls
+      echoNames := ← upd "echo" (fun s => some (if emptyish s then [] else s.splitOn ",")) c.echoNames
+      compression := comp
+      hookFails := ← upd "hookfail" (way hookWays) c.hookFails
+      pkce := ← upd "pkce" bool? c.pkce } }
+
+/-- a freshly constructed HttpServer: nothing set, compression at its default level -/
+def freshSt : St :=
+  { pfx := "", stickyCalls := [],
+    cfg := { cors := false, maxRequestBytes := 0, maxResponseBytes := 0, maxExternalizedResponseBytes := 0,
+             maxUploadBytes := 0, externalStorage := false, upload := false, proofRequired := false,
+             introspect := false, extraProxyHeaders := [], sticky := none, echoNames := [],
+             compression := true, hookFails := false, pkce := false } }
+
+def requiredCfgKeys : List String :=
+  ["cors", "maxreq", "maxresp", "maxext", "maxup", "ext", "upload", "proofreq", "introspect", "proxyhdrs",
+   "sticky", "echo", "comp", "hookfail", "pkce", "pfx"]
+
+def parseCfg (ws : List String) : Option St :=
+  let keys := (ws.filterMap kv).map (·.1)
+  if requiredCfgKeys.all keys.contains then applyCalls freshSt ws else none
 
 def hexNibble (c : Char) : Option Nat :=
   if '0' ≤ c ∧ c ≤ '9' then some (c.toNat - 48)
@@ -113,6 +155,14 @@ def step (st : Option St) (ws : List String) : Option St × String :=
     match parseCfg rest with
     | some c => (some c, "ok")
     | none => (st, "bad-op")
+  | "recfg" :: rest =>
+    -- further setter calls on the live server, between requests
+    match st with
+    | none => (st, "err:no-cfg")
+    | some s =>
+      match applyCalls s rest with
+      | some s' => (some s', "ok")
+      | none => (st, "bad-op")
   | "req" :: verb :: path :: rest =>
     match st with
     | none => (st, "err:no-cfg")
